@@ -65,6 +65,25 @@ Theorem receive_chunk_independent : forall cs,
 Proof. exact receive_chunked. Qed.
 Print Assumptions receive_chunk_independent.
 
+(* the server's read loop over a chunked transport equals the read loop over the whole stream *)
+Theorem receive_all_chunk_independent : forall fuel cs,
+  receive_all_chunks fuel cs =
+  (fst (receive_all fuel (concat cs)), strip_rest (snd (receive_all fuel (concat cs)))).
+Proof. exact receive_all_chunked. Qed.
+Print Assumptions receive_all_chunk_independent.
+
+(* the reader half of C16 in one statement: any sequence of frames (any of the three header
+   layouts, arbitrary body bytes, back to back), delivered in ANY chunks, is decoded into
+   exactly the bodies sent, then EOF *)
+Theorem chunked_frames_roundtrip : forall (frames : list (layout * bytes)) fuel cs,
+  (List.length frames < fuel)%nat ->
+  concat cs = concat (map (fun lb => frame (fst lb) (snd lb)) frames) ->
+  receive_all_chunks fuel cs = (map snd frames, PEof).
+Proof.
+  intros frames fuel cs Hf E. rewrite receive_all_chunked, E, receive_all_frames by exact Hf. reflexivity.
+Qed.
+Print Assumptions chunked_frames_roundtrip.
+
 (* non-vacuity: a Content-Type-first frame cut inside a header line, inside the two-byte
    character of the body and followed by the start of the next frame *)
 Example C16_chunks_nonvacuous :
